@@ -20,23 +20,26 @@ func (e *zzError) Error() string { return e.what }
 
 // zzSink is a monitored recorder.Recorder.
 type zzSink struct {
-	open      bool
-	fresh     bool // no frame written since the last successful start
-	last      int  // sequence number of the last frame written (ghost L)
-	firstSeq  int
-	starts    int
-	startOKs  int
-	stops     int
-	writes    int
-	checks    int
-	viol      bool // call outside the start..stop protocol
-	orderViol bool // gap, repeat or reordering
-	failStart bool
-	failCheck bool
-	failWrite bool
-	failStop  bool
-	bg        *cptvframe.Frame
-	thresh    uint16
+	open        bool
+	fresh       bool // no frame written since the last successful start
+	last        int  // sequence number of the last frame written (ghost L)
+	firstSeq    int
+	starts      int
+	startOKs    int
+	stops       int
+	writes      int
+	checks      int
+	viol        bool // write outside start..stop, or start while open
+	stopClosed  bool // stop while closed (redundant; not forbidden by any property)
+	orderViol   bool // gap, repeat or reordering
+	sinceStart  int  // frames written since the last successful start
+	failStart   bool
+	failCheck   bool
+	failWrite   bool // every write of this step fails
+	failWriteAt int  // the k-th write of this step fails (0 = none)
+	failStop    bool
+	bg          *cptvframe.Frame
+	thresh      uint16
 }
 
 func (s *zzSink) StartRecording(bg *cptvframe.Frame, th uint16) error {
@@ -49,6 +52,7 @@ func (s *zzSink) StartRecording(bg *cptvframe.Frame, th uint16) error {
 	}
 	s.open = true
 	s.fresh = true
+	s.sinceStart = 0
 	s.startOKs++
 	s.bg = bg
 	s.thresh = th
@@ -71,7 +75,8 @@ func (s *zzSink) WriteFrame(f *cptvframe.Frame) error {
 		s.orderViol = true
 	}
 	s.last = seq
-	if s.failWrite {
+	s.sinceStart++
+	if s.failWrite || s.writes == s.failWriteAt {
 		return &zzError{"write"}
 	}
 	return nil
@@ -80,7 +85,7 @@ func (s *zzSink) WriteFrame(f *cptvframe.Frame) error {
 func (s *zzSink) StopRecording() error {
 	s.stops++
 	if !s.open {
-		s.viol = true
+		s.stopClosed = true
 	}
 	s.open = false
 	if s.failStop {
